@@ -55,6 +55,15 @@ var All = []*Prop{
 		NotCovered: "the generator state machine itself (results of next/throw/return sequences), yield* delegation protocol, survival of locals and partially evaluated expressions (stack copy contents), async ordering: history-level semantics",
 	},
 	{
+		ID:    "C04",
+		Rules: []*core.Rule{rules.SetOwnGuard, rules.OverrideClosure},
+		Explanation: "R-SETOWNGUARD (OrdinarySet belief, sibling contradiction rule): in every function carrying the Receiver of a [[Set]] (a `receiver Value` parameter), each X.self.setOwn{Str,Idx,Sym} call is control-dependent on receiver == X for the same SSA value X. " +
+			"R-OVERRIDECLOSURE: from go/types method sets, for each of the ~50 object kinds and each key kind K, if getOwnProp<K> resolves outside baseObject (the kind answers [[GetOwnProperty]] from custom storage) then get/hasOwnProperty/delete/defineOwnProperty/setOwn/setForeign/hasProperty<K> and the matching enumerators also resolve outside baseObject, or the baseObject version provably only dispatches back through o.val.self to overridden methods, or the (kind, method) pair is an audited table exception.",
+		Technique:  "control dependence on a receiver-identity test (SSA); method-set matrix closure over go/types with virtual-dispatch discharge",
+		DesignRef:  "DESIGN.md section 4, C04",
+		NotCovered: "the decision table of ValidateAndApplyPropertyDescriptor (_defineOwnProperty), key ordering bookkeeping (idxPropCount/lastSortedPropLen), freeze/seal outcomes, ArraySetLength, per-kind exotic semantics: value-level; R-EXTENSIBLE is not armed",
+	},
+	{
 		ID:    "C05",
 		Rules: []*core.Rule{rules.NumBirth},
 		Explanation: "Canonical numeric representation (no integral float in ±2^53 other than -0 is ever stored as valueFloat) is a necessary condition for SameValue/===/Map-key equality of equal numbers, because valueInt.SameAs/hash compare representations. " +
